@@ -320,5 +320,11 @@ def pack(n, fields, family, per=60, passes=None, options=True, **kw):
                 extra['default_form'] = 'const' if k % 8 >= 4 else 'lit'
             if opt in (2, 3) and can_debug:
                 extra['debug'] = True
+            # user derives are passed through by the macro
+            d = k % 3
+            if d == 1:
+                extra['derives'] = '#[derive(PartialEq, Eq)]'
+            elif d == 2 and not extra.get('debug'):
+                extra['derives'] = '#[derive(Debug, PartialEq)]' if all(f.kind in 'bunieo' for f in fs) else '#[derive(PartialEq)]' 
         structs.append(Struct(n, fs, family=family, passes=list(passes or []), **extra))
     return structs
